@@ -478,6 +478,9 @@ func (vc *VC) rangeAssume(v Val) string {
 	if v.Typ == nil {
 		return ""
 	}
+	if _, isTP := types.Unalias(v.Typ).(*types.TypeParam); isTP {
+		return "" // opaque sort
+	}
 	if v.Sl != nil {
 		return fmt.Sprintf("(and (<= 0 %s) (<= %s %s) (<= 0 %s) (<= 0 %s) (=> (= %s 0) (= %s 0)))", v.Sl.Len, v.Sl.Len, v.Sl.Cap, v.Sl.Off, v.Sl.Arr, v.Sl.Arr, v.Sl.Cap)
 	}
